@@ -109,6 +109,10 @@ def fn_case(rng):
 
 
 def fn_leg(acc, srv, rng, n):
+    from ..core import dropped_groups
+    if "fn_guards" in dropped_groups():
+        acc.count("fn_leg_skipped_adapter_built_without_fn_guards")
+        return
     cases = [fn_case(rng) for _ in range(n)]
     reqs = [("assert_max_spread", [None if c[0] is None else str(c[0]), None if c[1] is None else str(c[1]),
                                    str(c[2]), str(c[3]), str(c[4]), c[5], c[6]]) for c, _ in cases]
